@@ -1,4 +1,5 @@
 import GV.Proofs.Bits32
+import GV.Basic.Bits
 
 /-! `Div32` (math/bits override): the full outcome relation. `digit_correct` lifts the Knuth-D digit estimate to the
     model's `digit`; `core_correct` does the two digits; `div32_correct` adds the normalisation bookkeeping. -/
@@ -76,14 +77,121 @@ theorem core_correct (y yn1 yn0 un16 un1 un0 s : Nat) (hy : y = yn1 * 65536 + yn
   have eR := wrap_diff (un16 * 65536 + un1 - q1 * y) un0 (q0 * y) hlo0 (Nat.lt_trans hlt0 hy32)
   have ⟨eQ, hQ⟩ := quo_join q1 q0 hq1 hq0
   refine ⟨q1 * 65536 + q0, (un16 * 65536 + un1 - q1 * y) * 65536 + un0 - q0 * y, ?_, ?_, hlt0, hQ⟩
-  · unfold div32Core
-    rw [hd1]
-    simp only [e21]
-    rw [hd0]
-    simp only [eR, eQ]
+  · have hd0' : digit yn1 yn0 (sub32 (u32 (u32 (un16 * 65536) + un1)) (u32 (q1 * y))) un0 = some q0 := by
+      rw [e21]; exact hd0
+    rw [div32Core, hd1, div32Hi, hd0', div32Lo, e21, eR, eQ]
   · have e : (q1 * 65536 + q0) * y = q1 * y * 65536 + q0 * y := by
       rw [Nat.add_mul, Nat.mul_assoc, Nat.mul_comm 65536 y, ← Nat.mul_assoc]
     rw [e]
     exact assemble un16 un1 un0 (q1 * y) (q0 * y) hlo1 hlo0
+
+/-! ### normalisation bookkeeping -/
+
+/-- `s := LeadingZeros32(y)` normalises y: the top bit of `y << s` is set and nothing is shifted out -/
+theorem lz_norm (y : Nat) (hy0 : y ≠ 0) (hy : y < 4294967296) :
+    leadingZeros32 y ≤ 31 ∧ 2147483648 ≤ y * 2 ^ leadingZeros32 y ∧ y * 2 ^ leadingZeros32 y < 4294967296 := by
+  unfold leadingZeros32
+  rw [if_neg hy0]
+  have hk : Nat.log2 y < 32 := (Nat.log2_lt hy0).mpr (by omega)
+  have hb := (Nat.log2_eq_iff (k := Nat.log2 y) hy0).mp rfl
+  have hs : Nat.log2 y + (31 - Nat.log2 y) = 31 := by omega
+  have hs1 : Nat.log2 y + 1 + (31 - Nat.log2 y) = 32 := by omega
+  have hP : 0 < 2 ^ (31 - Nat.log2 y) := Nat.two_pow_pos _
+  have e31 : 2 ^ Nat.log2 y * 2 ^ (31 - Nat.log2 y) = 2147483648 := by rw [← Nat.pow_add, hs]
+  have e32 : 2 ^ (Nat.log2 y + 1) * 2 ^ (31 - Nat.log2 y) = 4294967296 := by rw [← Nat.pow_add, hs1]
+  refine ⟨by omega, ?_, ?_⟩
+  · rw [← e31]; exact Nat.mul_le_mul_right _ hb.1
+  · rw [← e32]; exact (Nat.mul_lt_mul_right hP).mpr hb.2
+
+/-- undoing the normalisation: from Q·(y·P) + R = N·P and R < y·P, Q and R/P are quotient and remainder of N by y -/
+theorem unnormalise (N y P Q R : Nat) (hP : 0 < P) (hy : 0 < y) (h : Q * (y * P) + R = N * P) (hR : R < y * P) :
+    Q = N / y ∧ R / P = N % y := by
+  have e : Q * (y * P) = Q * y * P := by rw [Nat.mul_assoc]
+  rw [e] at h
+  have hle : Q * y ≤ N := Nat.le_of_mul_le_mul_right (by omega) hP
+  have hR' : R = (N - Q * y) * P := by rw [Nat.sub_mul]; omega
+  have hdiv : R / P = N - Q * y := by rw [hR']; exact Nat.mul_div_cancel _ hP
+  have hlt : N - Q * y < y := by
+    rw [hR'] at hR; exact Nat.lt_of_mul_lt_mul_right hR
+  have := (Nat.div_mod_unique (a := N) (d := Q) (c := N - Q * y) hy).mpr ⟨by rw [Nat.mul_comm y Q]; omega, hlt⟩
+  exact ⟨this.1.symm, by rw [hdiv]; exact this.2.symm⟩
+
+theorem shl32_eq (x s : Nat) (hs : s ≤ 31) : shl32 x s = (x * 2 ^ s) % 4294967296 := by
+  unfold shl32 u32; rw [if_pos (by omega), Nat.shiftLeft_eq]
+
+theorem shr32_eq (x s : Nat) (hs : s ≤ 31) : shr32 x s = x / 2 ^ s := by
+  unfold shr32; rw [if_pos (by omega), Nat.shiftRight_eq_div_pow]
+
+/-- `lo >> (32 - s)`: for s = 0 the Go shift by 32 gives 0, and so does the division by 2^32 -/
+theorem shr32_comp (x s : Nat) (hs : s ≤ 31) (hx : x < 4294967296) : shr32 x (32 - s) = x / 2 ^ (32 - s) := by
+  unfold shr32
+  by_cases h0 : s = 0
+  · subst h0
+    have e : (2:Nat) ^ (32 - 0) = 4294967296 := by decide
+    rw [if_neg (by omega), e, Nat.div_eq_of_lt hx]
+  · rw [if_pos (by omega), Nat.shiftRight_eq_div_pow]
+
+theorem split16 (m : Nat) : m / 65536 * 65536 + m % 65536 = m := by omega
+
+/-- the normalised operands represent N·2^s -/
+theorem norm_value (hi lo s : Nat) (hs : s ≤ 31) (hlo : lo < 4294967296) :
+    (hi * 2 ^ s + lo / 2 ^ (32 - s)) * 4294967296 + (lo * 2 ^ s) % 4294967296 = (hi * 4294967296 + lo) * 2 ^ s ∧
+    lo / 2 ^ (32 - s) < 2 ^ s := by
+  have hPP : 2 ^ (32 - s) * 2 ^ s = 4294967296 := by
+    rw [← Nat.pow_add]; have : 32 - s + s = 32 := by omega
+    rw [this]
+  have hP : 0 < 2 ^ s := Nat.two_pow_pos _
+  have hq : lo / 2 ^ (32 - s) < 2 ^ s := Nat.div_lt_of_lt_mul (by rw [hPP]; exact hlo)
+  have hdiv : lo * 2 ^ s / 4294967296 = lo / 2 ^ (32 - s) := by
+    rw [← hPP]; exact Nat.mul_div_mul_right lo (2 ^ (32 - s)) hP
+  have hdm := Nat.div_add_mod (lo * 2 ^ s) 4294967296
+  rw [hdiv] at hdm
+  refine ⟨?_, hq⟩
+  rw [Nat.add_mul, Nat.add_mul, Nat.mul_right_comm hi 4294967296 (2 ^ s)]
+  generalize hi * 2 ^ s = A at *
+  generalize lo / 2 ^ (32 - s) = d at *
+  generalize lo * 2 ^ s % 4294967296 = m at *
+  generalize lo * 2 ^ s = L at *
+  omega
+
+/-- `Div32(hi, lo, y)` for hi < y: quotient and remainder of hi·2^32 + lo by y — ALL operands -/
+theorem div32_correct (hi lo y : Nat) (hhi : hi < y) (hy : y < 4294967296) (hlo : lo < 4294967296) :
+    div32 hi lo y = .ok ((hi * 4294967296 + lo) / y) ((hi * 4294967296 + lo) % y) := by
+  have hy0 : y ≠ 0 := by omega
+  obtain ⟨hs, hYlo, hYhi⟩ := lz_norm y hy0 hy
+  rw [div32, if_neg hy0, if_neg (by omega), div32Norm]
+  generalize leadingZeros32 y = s at *
+  have hP : 0 < 2 ^ s := Nat.two_pow_pos _
+  have hHlt : hi * 2 ^ s < y * 2 ^ s := (Nat.mul_lt_mul_right hP).mpr hhi
+  have hH1 : (hi + 1) * 2 ^ s ≤ y * 2 ^ s := Nat.mul_le_mul_right _ hhi
+  rw [Nat.add_mul, Nat.one_mul] at hH1
+  have eY : shl32 y s = y * 2 ^ s := by rw [shl32_eq y s hs]; exact Nat.mod_eq_of_lt hYhi
+  have eH : shl32 hi s = hi * 2 ^ s := by rw [shl32_eq hi s hs]; exact Nat.mod_eq_of_lt (by omega)
+  have eL : shl32 lo s = (lo * 2 ^ s) % 4294967296 := shl32_eq lo s hs
+  have eR : shr32 lo (32 - s) = lo / 2 ^ (32 - s) := shr32_comp lo s hs hlo
+  obtain ⟨hval, hq⟩ := norm_value hi lo s hs hlo
+  have eOr : hi * 2 ^ s ||| lo / 2 ^ (32 - s) = hi * 2 ^ s + lo / 2 ^ (32 - s) :=
+    GV.Bits.or_add_of_dvd (hi * 2 ^ s) (lo / 2 ^ (32 - s)) s ⟨hi, Nat.mul_comm _ _⟩ hq
+  rw [eY, eH, eL, eR, eOr, GV.Bits.shr_div, GV.Bits.shr_div, show (65535 : Nat) = 2 ^ 16 - 1 from rfl,
+    GV.Bits.and_mask, GV.Bits.and_mask]
+  have e16 : (2 : Nat) ^ 16 = 65536 := by decide
+  rw [e16]
+  have hm : lo * 2 ^ s % 4294967296 < 4294967296 := Nat.mod_lt _ (by omega)
+  obtain ⟨Q, R, hcore, hsum, hR, _⟩ := core_correct (y * 2 ^ s) (y * 2 ^ s / 65536) (y * 2 ^ s % 65536)
+    (hi * 2 ^ s + lo / 2 ^ (32 - s)) (lo * 2 ^ s % 4294967296 / 65536) (lo * 2 ^ s % 4294967296 % 65536) s
+    (by omega) (by omega) (by omega) (Nat.mod_lt _ (by omega)) (by omega) (Nat.mod_lt _ (by omega)) (by omega)
+  rw [hcore, shr32_eq R s hs]
+  have hU : Q * (y * 2 ^ s) + R = (hi * 4294967296 + lo) * 2 ^ s := by
+    rw [← hval, hsum, Nat.add_assoc, split16]
+  obtain ⟨h1, h2⟩ := unnormalise (hi * 4294967296 + lo) y (2 ^ s) Q R hP (by omega) hU hR
+  rw [h1, h2]
+
+/-- `Rem32(hi, lo, y)` = (hi·2^32 + lo) mod y for every y ≠ 0 (no overflow panic: hi is reduced first) -/
+theorem rem32_correct (hi lo y : Nat) (hy0 : y ≠ 0) (hy : y < 4294967296) (hlo : lo < 4294967296) :
+    rem32 hi lo y = .ok ((hi * 4294967296 + lo) % y) := by
+  have hpos : 0 < y := Nat.pos_of_ne_zero hy0
+  have hc : (hi % y * 4294967296 + lo) % y = (hi * 4294967296 + lo) % y := by
+    rw [Nat.add_mod, Nat.mul_mod, Nat.mod_mod, ← Nat.mul_mod, ← Nat.add_mod]
+  rw [rem32, if_neg hy0, div32_correct (hi % y) lo y (Nat.mod_lt _ hpos) hy hlo, hc]
 
 end GV.Proofs.Div32
